@@ -273,6 +273,41 @@ Proof.
   rewrite (nmono_eqb_sound _ _ rho H), IHHf. reflexivity.
 Qed.
 
+(** moving the factors [-1] into the sign does not change the meaning *)
+Lemma m1_parity_sound : forall (fs : list (factor O)) r,
+  rprod (map (eval_factor E r) fs)
+  = sgn (m1_parity fs) (rprod (map (eval_factor E r) (filter (fun f => negb (is_m1 f)) fs))).
+Proof.
+  induction fs; intros r; simpl.
+  - reflexivity.
+  - rewrite IHfs. destruct (is_m1 a) eqn:Hm; simpl.
+    + destruct a; simpl in Hm; try discriminate. apply Z.eqb_eq in Hm. subst. simpl eval_factor.
+      change (of_Z (-1)) with (@of_Z O (-1)). rewrite of_Z_m1_mul; auto.
+      destruct (m1_parity fs); simpl; ring.
+    + rewrite sgn_mul_r; auto. destruct (m1_parity fs); reflexivity.
+Qed.
+
+Lemma nsign_ncanon : forall m : nmono O, nsign (ncanon m) = xorb (nsign m) (m1_parity (nfactors m)).
+Proof. reflexivity. Qed.
+Lemma nfactors_ncanon : forall m : nmono O,
+  nfactors (ncanon m) = filter (fun f => negb (is_m1 f)) (nfactors m).
+Proof. reflexivity. Qed.
+Lemma nsummed_ncanon : forall m : nmono O, nsummed (ncanon m) = nsummed m.
+Proof. reflexivity. Qed.
+
+Lemma ncanon_sound : forall m rho, ninterp1 (ncanon m) rho = ninterp1 m rho.
+Proof.
+  intros m rho. rewrite !ninterp1_unfold. rewrite nsign_ncanon, nsummed_ncanon.
+  rewrite <- sgn_sgn; auto. f_equal.
+  rewrite <- sum_over_sgn; auto. apply sum_over_ext. intros r. unfold nF. rewrite nfactors_ncanon.
+  symmetry. apply m1_parity_sound.
+Qed.
+
+Lemma ninterp_ncanon : forall ms rho, ninterp (map ncanon ms) rho = ninterp ms rho.
+Proof.
+  intros. unfold DesugarSemGraph.ninterp. rewrite map_map. apply rsum_map_ext. intros; apply ncanon_sound.
+Qed.
+
 (** THE THEOREM: an accepted graph computes, as a loop nest, the desugared expression. *)
 Theorem graph_validator_sound : forall (d : dexpr O) (g : graph O),
   graph_ok ords Reqb d g = true ->
@@ -280,7 +315,26 @@ Theorem graph_validator_sound : forall (d : dexpr O) (g : graph O),
 Proof.
   intros d g H rho. unfold graph_ok in H.
   destruct (nf_d d) as [a|] eqn:Ed; [|discriminate].
-  rewrite (nf_d_sound d a Ed), nf_g_sound. symmetry. apply permb_nmono_sound; auto.
+  rewrite (nf_d_sound d a Ed), nf_g_sound.
+  rewrite <- (ninterp_ncanon a), <- (ninterp_ncanon (nf_g ords g)).
+  symmetry. apply permb_nmono_sound; auto.
+Qed.
+
+(** The checker against the specification: an accepted graph computes the specification. *)
+Lemma nf_spec_sound : forall (a : assignment O) c,
+  ninterp (nf_spec a) (bind (tgt_idx a) c) = spec a E sizes c.
+Proof.
+  intros. unfold DesugarSemGraph.ninterp, nf_spec, spec. rewrite map_map. reflexivity.
+Qed.
+
+Theorem graph_spec_validator_sound : forall (a : assignment O) (g : graph O),
+  graph_ok_spec ords Reqb a g = true ->
+  forall c, gdenote E sizes ords g (bind (tgt_idx a) c) = spec a E sizes c.
+Proof.
+  intros a g H c. unfold graph_ok_spec in H.
+  rewrite nf_g_sound, <- nf_spec_sound.
+  rewrite <- (ninterp_ncanon (nf_spec a)), <- (ninterp_ncanon (nf_g ords g)).
+  symmetry. apply permb_nmono_sound; auto.
 Qed.
 
 (** Composition with part B: a graph accepted against the desugared right-hand side computes the
